@@ -35,6 +35,7 @@ import (
 	"sort"
 	"strconv"
 	"strings"
+	"sync/atomic"
 	"testing"
 	"time"
 
@@ -570,11 +571,33 @@ type c29Env struct {
 	instances int
 	nsSeq     int
 	partial   *vr.Partial
+	progress  atomic.Int64
+	watching  bool
 }
 
 const c29ReopenEvery = 40000
 
+// watchdog turns a hang into a harness error. It counts one-second ticks without any
+// command completing instead of using one long deadline: a suspended sandbox makes clocks
+// jump, which costs at most one tick here but would fire every pending deadline at once.
+func (e *c29Env) watchdog() {
+	last, idle := e.progress.Load(), 0
+	for range time.Tick(time.Second) {
+		if cur := e.progress.Load(); cur != last {
+			last, idle = cur, 0
+			continue
+		}
+		if idle++; idle >= 900 {
+			vr.Fatalf("c29: no command completed for %d ticks (gateway hung?)", idle)
+		}
+	}
+}
+
 func (e *c29Env) open() {
+	if !e.watching {
+		e.watching = true
+		go e.watchdog()
+	}
 	e.dbSeq++
 	dir := fmt.Sprintf("%s/db%d", e.base, e.dbSeq)
 	if err := os.MkdirAll(dir, 0o755); err != nil {
@@ -595,6 +618,7 @@ func (e *c29Env) open() {
 			opt.MaxBatchSize = 16 << 20
 		}
 	}
+	opt.DetectConflicts = true // as main() does since 18584ec
 	// the 200us commit-coalescing sleep only delays a lone writer; it has no effect on results
 	opt.WriteBatchWait = 0
 	e.db = NoKV.Open(opt)
@@ -666,7 +690,6 @@ func c29New(env *c29Env, alpha *c29Alphabet, exact bool) *c29Inst {
 	cli, srvEnd := net.Pipe()
 	in.cli = cli
 	in.rd = bufio.NewReader(cli)
-	_ = cli.SetDeadline(time.Now().Add(5 * time.Minute)) // harness guard only: expiry is a harness error
 	go func() {
 		defer close(in.done)
 		defer func() {
@@ -677,7 +700,7 @@ func c29New(env *c29Env, alpha *c29Alphabet, exact bool) *c29Inst {
 				_ = srvEnd.Close()
 			}
 		}()
-		env.srv.handleConn(srvEnd)
+		env.srv.handleConn(vrespServerConn{srvEnd})
 	}()
 	in.rawK = in.rawKey()
 	return in
@@ -778,6 +801,7 @@ func (in *c29Inst) Apply(op string) (bool, error) {
 		return false, fmt.Errorf("command after QUIT")
 	}
 	in.steps++
+	in.env.progress.Add(1)
 	in.env.partial.Add("commands", 1)
 	pre := in.model.show(c29Keys)
 	preSig := in.model.sigState(args)
